@@ -5,6 +5,7 @@ import GeonumModel.Lemmas.AngleStep
 import GeonumModel.Lemmas.Shift
 import GeonumModel.Lemmas.Exact
 import GeonumModel.Lemmas.ExactAdd
+import GeonumModel.Lemmas.FloatProject
 
 set_option linter.unusedSectionVars false
 set_option linter.unusedVariables false
@@ -236,6 +237,35 @@ theorem rejection_orthogonal_real {a b : Geonum ℝ} (ha : a.angle.Inv) (hb : b.
 end E
 
 /-! PARTIAL (not yet proved): project_to_dimension k = |a|cos(kπ/2 − t) in exact arithmetic (explored by `oracle.C11.dim`). -/
+
+/-! ### B-tier: projections in rounded arithmetic, angles in true radians -/
+section B
+variable {F : Type} [FloatSpec F]
+
+/-- (B) **projection onto the `k`-th dimension in rounded arithmetic** is `|g|·cos(k·π/2 − T g)` (true π) to within
+    `|g|·(1e-10 + 1e-14) + 1e-30` for every dimension index below `2^53`: the error does not grow with `k`, because the difference
+    of the two angles is taken in exact blade arithmetic before any float is formed -/
+theorem projectToDimension_float {g : Geonum F} (hg : g.angle.Inv) (hm : Fin g.mag) (hm0 : 0 ≤ val g.mag)
+    (k : ℕ) (hk : k < 2 ^ 53) :
+    |val (g.projectToDimension k) - val g.mag * Real.cos ((k : ℝ) * (Real.pi / 2) - Angle.Tpi g.angle)|
+      ≤ val g.mag * (val (e10 : F) + 1 / 10 ^ 14) + 1 / 10 ^ 30 :=
+  Geonum.projectToDimension_float hg hm hm0 k hk
+
+/-- (B) **length of the projection of `a` onto `b` in rounded arithmetic** (`|b| ≥ 1e-10` branch): `|a|·|cos(T b − T a)|` to within
+    `|a|·(1e-10 + 1e-14) + 1e-30`, independent of `|b|` -/
+theorem project_mag_float {a b : Geonum F} (ha : a.angle.Inv) (hb : b.angle.Inv) (hm : Fin a.mag) (hm0 : 0 ≤ val a.mag)
+    (hbm : flt (fabs b.mag) e10 = false) :
+    |val (a.project b).mag - val a.mag * abs (Real.cos (Angle.Tpi b.angle - Angle.Tpi a.angle))|
+      ≤ val a.mag * (val (e10 : F) + 1 / 10 ^ 14) + 1 / 10 ^ 30 :=
+  Geonum.project_mag_float ha hb hm hm0 hbm
+
+/-- (B) `Angle::project` is the cosine of the true difference of totals to within `1e-10 + 8e-15`, and never exceeds one -/
+theorem angle_project_float {a onto : Angle F} (ha : a.Inv) (ho : onto.Inv) :
+    Fin (a.project onto) ∧ |val (a.project onto)| ≤ 1 ∧
+    |val (a.project onto) - Real.cos (Angle.Tpi onto - Angle.Tpi a)| ≤ val (e10 : F) + 8 / 10 ^ 15 :=
+  Angle.project_float ha ho
+
+end B
 
 example {F : Type} [FloatSpec F] : (⟨zero, 1⟩ : Angle F).Inv := inv_zero 1
 
